@@ -4,6 +4,7 @@ import (
 	"fmt"
 	"hash/fnv"
 	"math/rand"
+	"strings"
 	"sync"
 	"sync/atomic"
 	"time"
@@ -17,6 +18,39 @@ import (
 	"helm.sh/helm/v4/verifh/gen"
 	"helm.sh/helm/v4/verifh/sim"
 )
+
+// memoryRaceFlags: mix --replace / --history-max into the free-running ops on memory storage too.
+const memoryRaceFlags = true
+
+// onStorage runs a race-mode goroutine body below a frame that names the kind of storage, so
+// that race reports can be told apart (Prop.RaceClassSuffix): the memory driver shares release
+// objects between callers, the Kubernetes-backed drivers share nothing.
+func onStorage(driverKind string, f func()) {
+	if driverKind == "memory" {
+		onMemoryStorage(f)
+	} else {
+		onKubernetesStorage(f)
+	}
+}
+
+//go:noinline
+func onMemoryStorage(f func()) { f() }
+
+//go:noinline
+func onKubernetesStorage(f func()) { f() }
+
+// raceSuffix tags a race report with the storage kind of the workload it came from.
+func raceSuffix(report string) string {
+	mem := strings.Contains(report, "c09.onMemoryStorage(")
+	kube := strings.Contains(report, "c09.onKubernetesStorage(")
+	switch {
+	case mem && !kube:
+		return " [memory storage]"
+	case kube && !mem:
+		return " [kubernetes-backed storage]"
+	}
+	return " [storage unknown]"
+}
 
 // hashDelay returns a lock-free, seed-determined delay plan: 0..maxMicros per (agent, call index).
 func hashDelay(seed int64, maxMicros int) func(*sim.Req) time.Duration {
@@ -56,7 +90,7 @@ func runRaceOps(res *core.Result, d caseData, verbose bool) {
 		// accesses are {prepareUpgrade, availableName} x {SetStatus, releasingUpgrade}: a closed
 		// set of signatures. --replace / --history-max add further access sites of the same defect
 		// and are therefore only mixed in on the Kubernetes-backed drivers (which share nothing).
-		plainOnly := d.Driver == "memory"
+		plainOnly := d.Driver == "memory" && !memoryRaceFlags
 		if plainOnly {
 			limit = 0
 		}
@@ -93,17 +127,19 @@ func runRaceOps(res *core.Result, d caseData, verbose bool) {
 			wg.Add(1)
 			go func(g int) {
 				defer wg.Done()
-				for m, p := range plan[g] {
-					ch := fam.Files(p.ver).Build()
-					w.Sim.NoteEvent(sim.Event{Agent: p.agent, What: "op-start"})
-					r := w.Exec(p.agent, relName, p.op, ch)
-					e := sim.Event{Agent: p.agent, What: "op-end"}
-					if r.Err != nil {
-						e.Err = r.Err.Error()
+				onStorage(d.Driver, func() {
+					for m, p := range plan[g] {
+						ch := fam.Files(p.ver).Build()
+						w.Sim.NoteEvent(sim.Event{Agent: p.agent, What: "op-start"})
+						r := w.Exec(p.agent, relName, p.op, ch)
+						e := sim.Event{Agent: p.agent, What: "op-end"}
+						if r.Err != nil {
+							e.Err = r.Err.Error()
+						}
+						w.Sim.NoteEvent(e)
+						results[g][m] = r
 					}
-					w.Sim.NoteEvent(e)
-					results[g][m] = r
-				}
+				})
 			}(g)
 		}
 		wg.Wait()
@@ -178,54 +214,56 @@ func runRaceDriver(res *core.Result, d caseData, verbose bool) {
 			wg.Add(1)
 			go func(g int) {
 				defer wg.Done()
-				rng := rand.New(rand.NewSource(d.RSeed ^ int64(rep*1000+g)*7919))
-				drv := shared
-				if perGoroutine {
-					drv = w.Driver(fmt.Sprintf("g%d", g))
-				}
-				for m := 0; m < d.M; m++ {
-					ver := 1 + rng.Intn(d.Keys)
-					key := fmt.Sprintf("sh.helm.release.v1.%s.v%d", relName, ver)
-					id := fmt.Sprintf("g%d-%d", g, m)
-					status := release.StatusSuperseded
-					if rng.Intn(3) == 0 {
-						status = release.StatusDeployed
+				onStorage(d.Driver, func() {
+					rng := rand.New(rand.NewSource(d.RSeed ^ int64(rep*1000+g)*7919))
+					drv := shared
+					if perGoroutine {
+						drv = w.Driver(fmt.Sprintf("g%d", g))
 					}
-					read := func(rs ...*release.Release) {
-						for _, r := range rs {
-							if r != nil && r.Info != nil {
-								sink.Add(int64(len(r.Info.Description) + r.Version + len(r.Labels)))
+					for m := 0; m < d.M; m++ {
+						ver := 1 + rng.Intn(d.Keys)
+						key := fmt.Sprintf("sh.helm.release.v1.%s.v%d", relName, ver)
+						id := fmt.Sprintf("g%d-%d", g, m)
+						status := release.StatusSuperseded
+						if rng.Intn(3) == 0 {
+							status = release.StatusDeployed
+						}
+						read := func(rs ...*release.Release) {
+							for _, r := range rs {
+								if r != nil && r.Info != nil {
+									sink.Add(int64(len(r.Info.Description) + r.Version + len(r.Labels)))
+								}
 							}
 						}
+						switch rng.Intn(10) {
+						case 0, 1:
+							drv.Create(key, mkRelease(relName, ver, status, id))
+						case 2, 3:
+							drv.Update(key, mkRelease(relName, ver, status, id))
+						case 4:
+							r, _ := drv.Delete(key)
+							read(r)
+						case 5:
+							r, _ := drv.Get(key)
+							read(r)
+						case 6:
+							rs, _ := drv.Query(map[string]string{"name": relName, "owner": "helm"})
+							read(rs...)
+						case 7:
+							rs, _ := drv.List(func(r *release.Release) bool { return r.Version >= 1 })
+							read(rs...)
+						case 8:
+							rs, _ := st.History(relName)
+							read(rs...)
+							r, _ := st.Last(relName)
+							read(r)
+						case 9:
+							r, _ := st.Deployed(relName)
+							read(r)
+						}
+						calls.Add(1)
 					}
-					switch rng.Intn(10) {
-					case 0, 1:
-						drv.Create(key, mkRelease(relName, ver, status, id))
-					case 2, 3:
-						drv.Update(key, mkRelease(relName, ver, status, id))
-					case 4:
-						r, _ := drv.Delete(key)
-						read(r)
-					case 5:
-						r, _ := drv.Get(key)
-						read(r)
-					case 6:
-						rs, _ := drv.Query(map[string]string{"name": relName, "owner": "helm"})
-						read(rs...)
-					case 7:
-						rs, _ := drv.List(func(r *release.Release) bool { return r.Version >= 1 })
-						read(rs...)
-					case 8:
-						rs, _ := st.History(relName)
-						read(rs...)
-						r, _ := st.Last(relName)
-						read(r)
-					case 9:
-						r, _ := st.Deployed(relName)
-						read(r)
-					}
-					calls.Add(1)
-				}
+				})
 			}(g)
 		}
 		wg.Wait()
